@@ -43,7 +43,7 @@ def readable(ex, *fns):
 
 def key_root(k):
     """the variable an element key ("elem", base, index) of the skeleton lives in"""
-    while isinstance(k, tuple) and len(k) == 3 and k[0] == "elem":
+    while isinstance(k, tuple) and len(k) == 3 and k[0] in ("elem", "member"):
         k = k[1]
     return k
 
@@ -160,6 +160,132 @@ class WatchSkel(skel.Skel):
             for a in args:
                 if a is not None and self.touches(a):
                     raise undecided(self.fn, e, "the split table is handed to a call that cannot be followed")
+        return r
+
+
+def below(key, top):
+    """key is a part (element, data member, at any depth) of the object at top"""
+    while isinstance(key, tuple) and len(key) == 3 and key[0] in ("elem", "member"):
+        key = key[1]
+        if key == top:
+            return True
+    return False
+
+
+def subscript_only_arrays(*fns):
+    """local arrays of integers that are used through subscripts only (arr[i]), the element neither having its address taken
+    nor being bound to a reference: their elements are places of their own that nothing else can reach"""
+    out = set()
+    for f in fns:
+        if f is None:
+            continue
+        arrays = {v["did"] for v in f.nodes() if v["k"] == "VarDecl" and v.get("did") is not None and (v.get("ty") or "").rstrip().endswith("]")}
+        tu = getattr(f, "tu", None)
+
+        def up(x):
+            par = f.parent(x)
+            while par is not None and par["k"] in ("ImplicitCastExpr", "ParenExpr"):
+                x, par = par, f.parent(par)
+            return x, par
+        for y in f.nodes():
+            if y["k"] != "DeclRefExpr" or y["ref"]["id"] not in arrays:
+                continue
+            d = y["ref"]["id"]
+            x, par = up(y)
+            if par is None or par["k"] != "ArraySubscriptExpr" or kids(par)[0] is not x or not is_integer(par.get("ty")):
+                arrays.discard(d)
+                continue
+            x, par = up(par)
+            if par is None:
+                continue
+            if (par["k"] == "UnaryOperator" and par.get("op") == "&") or par["k"] in ("LambdaExpr", "CXXForRangeStmt") or \
+                    (par["k"] == "VarDecl" and (par.get("ty") or "").rstrip().endswith("&")):
+                arrays.discard(d)
+            elif "callee" in par:
+                # bound to a reference parameter?  told by the parameter type of a project function; a library function is
+                # taken not to have integer out-parameters (as in modifications())
+                callee = tu.by_did.get(par["callee"].get("did")) if tu is not None else None
+                if callee is not None and par["k"] == "CXXOperatorCallExpr":
+                    arrays.discard(d)
+                elif callee is not None:
+                    args = kids(par)[(1 if par.get("member_call") else 0):]
+                    i = next((i for i, a in enumerate(args) if a is x), None)
+                    pty = (callee.params[i].get("ty") or "").rstrip() if i is not None and i < len(callee.params) else "&"
+                    if pty.endswith("&") and not pty.endswith("&&") and not pty.startswith("const "):
+                        arrays.discard(d)
+        for g in fns:               # an array that a lambda captures is used in a way that is not followed here
+            if g is not None and g is not f:
+                arrays -= {y["ref"]["id"] for y in g.nodes() if y["k"] == "DeclRefExpr"}
+        out |= arrays
+    return frozenset(out)
+
+
+class ObjSkel(skel.Skel):
+    """the skeleton with two more kinds of places: a data member of an object that has a place (slab.length, slabs[i].length,
+    p->length) and an element of a local array that is used through subscripts only.  A store to a whole object forgets what
+    was known about its parts; an object with known parts that is handed to a call which cannot be followed is undecidable."""
+    own_arrays = frozenset()
+    CONST_CALLS = ("size", "empty", "begin", "end", "cbegin", "cend")
+
+    def lvalue(self, e):
+        e0 = strip_casts(e)
+        while e0 is not None and e0["k"] == "ParenExpr":
+            e0 = strip_casts(kids(e0)[0])
+        if e0 is not None and e0["k"] == "MemberExpr" and kids(e0) and e0.get("member") and not match.this_field(e0):
+            if e0.get("arrow"):
+                p = self.ev(kids(e0)[0])
+                base = p[1] if isinstance(p, tuple) and len(p) == 2 and p[0] == "ptr" else None
+            else:
+                base = self.lvalue(kids(e0)[0])
+            return ("member", base, e0["member"]) if base is not None else None
+        ip = match.index_parts(e0) if e0 is not None else None
+        if ip and ref_of(ip[0]) in self.own_arrays and e0["k"] == "ArraySubscriptExpr":
+            idx = self.ev(ip[1])
+            return ("elem", ref_of(ip[0]), idx) if isinstance(idx, int) and not isinstance(idx, bool) else None
+        return super().lvalue(e)
+
+    def ev(self, e):
+        e0 = match.strip_conv(e)
+        if e0 is not None and e0["k"] == "MemberExpr" and kids(e0) and e0.get("member") and not match.this_field(e0):
+            if self.event is not None:
+                r = self.event(e0, self)
+                if r is not NotImplemented:
+                    return r
+            key = self.lvalue(e0)
+            if key is not None and key in self.env:
+                return self.env[key]
+            return self.unknown(e0, self) if self.unknown else None
+        return super().ev(e)
+
+    def has_parts(self, key):
+        return any(below(k, key) for k in self.env)
+
+    def store(self, key, v):
+        if key is not None:
+            for k in [k for k in self.env if below(k, key)]:
+                del self.env[k]
+        super().store(key, v)
+
+    def stmt(self, s):
+        if s is not None and s["k"] == "DeclStmt":          # a new object: nothing is known about its parts
+            for v in kids(s):
+                if v["k"] == "VarDecl":
+                    for k in [k for k in self.env if below(k, v.get("did"))]:
+                        del self.env[k]
+        super().stmt(s)
+
+    def inline(self, e, args):
+        r = super().inline(e, args)
+        if r is NotImplemented and not match.index_parts(e) and not (e.get("member_call") and e["callee"]["name"] in self.CONST_CALLS):
+            for a in args:
+                for y in ir.walk(a):
+                    if y["k"] != "DeclRefExpr":
+                        continue
+                    k = self.alias.get(y["ref"]["id"], y["ref"]["id"])
+                    v = self.env.get(k)
+                    for top in (key_root(k), key_root(v[1]) if isinstance(v, tuple) and len(v) == 2 and v[0] == "ptr" else None):
+                        if top is not None and any(k2[0] == "member" and key_root(k2) == top for k2 in self.env if isinstance(k2, tuple) and len(k2) == 3):
+                            raise undecided(self.fn, e, "an object whose data members are followed is handed to a call that cannot be followed")
         return r
 
 
@@ -316,6 +442,11 @@ def int_vector_stores(fn):
             ip = match.index_parts(b[1])
             if ip and ir.ref_of(ip[0]) is not None and "vector" in (strip_casts(ip[0]).get("ty") or "").lower():
                 stores.setdefault(ir.ref_of(ip[0]), []).append(z)
+            elif not ip:
+                # a data member of an element, the element named directly or by a reference local: vec[j].f = .., r.f = ..
+                rec = record_element(fn, b[1])
+                if rec:
+                    stores.setdefault(rec[0], []).append(z)
         # an element handed to a helper by address: helper(&vec[j])
         if z["k"] == "UnaryOperator" and z.get("op") == "&":
             ip = match.index_parts(kids(z)[0])
@@ -325,10 +456,46 @@ def int_vector_stores(fn):
     return stores
 
 
-def store_index(z):
+def local_decls(fn):
+    if not hasattr(fn, "_c07_decls"):
+        fn._c07_decls = {v["did"]: v for v in fn.nodes() if v["k"] == "VarDecl" and v.get("did") is not None}
+    return fn._c07_decls
+
+
+def record_element(fn, lhs):
+    """(container did, index expr) if lhs is a data member of an element of a local container of records, the element written
+    as vec[j] or named by a reference local bound to vec[j] (a reference is never rebound): vec[j].f, r.f"""
+    decls = local_decls(fn)
+    e = strip_casts(lhs)
+    fields = 0
+    for _ in range(8):
+        f = match.field_of(e)
+        if f and not match.this_field(e):
+            e, fields = strip_casts(f[0]), fields + 1
+            continue
+        d = ref_of(e)
+        if d in decls and (decls[d].get("ty") or "").rstrip().endswith("&") and not (decls[d].get("ty") or "").rstrip().endswith("&&") and \
+                kids(decls[d]) and kids(decls[d])[0] is not None:
+            e = strip_casts(kids(decls[d])[0])
+            continue
+        break
+    ip = match.index_parts(e)
+    d = ref_of(ip[0]) if ip else None
+    if not fields or d not in decls:
+        return None
+    ty = (decls[d].get("ty") or "").replace("const ", "").strip()
+    if ty.startswith(("std::vector<", "tlx::SimpleVector<", "std::array<")) or ty.endswith("]"):
+        return d, ip[1]
+    return None
+
+
+def store_index(fn, z):
     """the index expression of a store found by int_vector_stores"""
     b = match.binop(z, ("=",)) if z["k"] in ("BinaryOperator", "CXXOperatorCallExpr") else None
     ip = match.index_parts(b[1]) if b else (match.index_parts(kids(z)[0]) if z["k"] == "UnaryOperator" else None)
+    if b and not ip:
+        rec = record_element(fn, b[1])
+        return rec[1] if rec else None
     return ip[1] if ip else None
 
 
@@ -356,7 +523,7 @@ def slab_loops(fn, stores):
             out.append((lp, vs[0]))
     for vec, sts in stores.items():
         for z in sts:
-            add(z, store_index(z))
+            add(z, store_index(fn, z))
     # a further loop over the slabs that only reads the per-slab vectors (e.g. to find the last slab that merges anything)
     filled = {vec for vec, sts in stores.items() if any(any(inside_of(z, l) for l, _ in out) for z in sts)}
     for z in fn.nodes():
@@ -388,6 +555,12 @@ class SlabEval:
         # never changed, and initialised from nothing that the per-slab fragment changes
         self.inits = {d: e for d, e in stable_inits(fn, (lam,) if lam is not None else ()).items()
                       if not any(y["k"] == "DeclRefExpr" and y["ref"]["id"] in self.outer | self.loopvars for y in ir.walk(e))}
+        self.own_arrays = subscript_only_arrays(fn, lam)
+
+    def skel(self, fn, env, unknown=None, event=None):
+        sk = ObjSkel(fn, env, unknown, event)
+        sk.own_arrays = self.own_arrays
+        return sk
 
     def point(self, L, S, P):
         """-> dict(pos, length (0 if no merge is started), called, env, call, begin, end)"""
@@ -475,7 +648,7 @@ class SlabEval:
         for d in self.outer:
             env[d] = UNSET       # "not set by this slab"
         for lp, var in self.loops:
-            sk = skel.Skel(self.fn, env, unknown, event)
+            sk = self.skel(self.fn, env, unknown, event)
             sk.alg = alg
             sk.env[var] = IAM
             sk.stmt(match.loop_parts(lp)[3])
@@ -483,7 +656,7 @@ class SlabEval:
         slab_env = dict(env)
         ctx = self.lam if self.lam is not None else None
         if ctx is not None:
-            sk = skel.Skel(ctx, env, unknown, event)
+            sk = self.skel(ctx, env, unknown, event)
             sk.alg = alg
             if self.idxvar is not None:
                 sk.env[self.idxvar] = IAM
@@ -534,7 +707,7 @@ def last_active_slab(fn, slab, se, lam):
         if r["called"] and not isinstance(r["length"], int):
             raise dtable.Undecidable("%s: length of the per-thread merge not understood" % fn.loc)
         d = ref_of(slab)
-        got = r["env"].get(d) if d is not None else skel.Skel(fn, r["env"]).ev(slab)
+        got = r["env"].get(d) if d is not None else se.skel(fn, r["env"]).ev(slab)
         if got is None or isinstance(got, bool) or not (got == UNSET or isinstance(got, int)):
             raise undecided(fn, slab, "value of the slab index after the per-slab fragment not understood")
         if got != UNSET and got != IAM:
@@ -551,10 +724,11 @@ def inside_of(n, root):
 
 
 def zero_length(ck, fn, g, tag, sizep, splits):
-    """ZERO-LENGTH: with size == 0 no split rank is computed.  Every branch condition of the function is evaluated for
-    size = 0 (everything else is data); the edges that cannot be taken then are removed from the CFG.  A remaining path from
-    the entry to a splitting call is the counterexample.  A condition that involves size and cannot be evaluated is a wall:
-    if the splitter is reachable only through such a condition the rule cannot decide."""
+    """ZERO-LENGTH: with size == 0 no split rank is computed.  The CFG is searched from the entry with size = 0 (everything else
+    is data): every branch condition is evaluated, an edge that cannot be taken then is not followed; scalar flags that are
+    set by plain assignments under tests of size are followed along the path.  A path that arrives at a splitting call is
+    the counterexample.  A condition that involves size and cannot be evaluated is a wall: if the splitter is reachable only
+    through such a condition the rule cannot decide."""
     if modifications(fn, sizep):
         raise dtable.Undecidable("%s: the requested size is modified inside the function" % fn.loc)
     inits = stable_inits(fn)
@@ -596,37 +770,95 @@ def zero_length(ck, fn, g, tag, sizep, splits):
             if target is not None and target not in tainted and (on_size(src) or under_size_test(y)):
                 tainted.add(target)
                 changed = True
-    blocked, walls = [], []
-    for bid, b in g.blocks.items():
-        succ = b.get("succ", [])
-        if len(succ) != 2 or None in succ or b.get("cond") is None or b.get("termk") == "SwitchStmt":
+    # flags: scalar locals that depend on size and change by plain assignments only (bool go_on = true; if (size == 0) go_on =
+    # false;).  Their values are followed along the paths: a state of the search is (block, values of the flags known there)
+    decls = local_decls(fn)
+    by_ref = {c.get("id") for y in fn.nodes() if y["k"] == "LambdaExpr" for c in y.get("captures", []) if c.get("byref")}
+    flags, assigns = set(), {}
+    for d in tainted - {sizep}:
+        v = decls.get(d)
+        ty = (v.get("ty") or "").replace("const ", "").strip() if v is not None else ""
+        par = fn.parent(v) if v is not None else None
+        if v is None or d in by_ref or not (ty == "bool" or is_integer(ty)) or par is None or par["k"] != "DeclStmt" or g.pos(par) is None:
             continue
-        els = [x for x in b.get("el", []) if isinstance(x, int)]
-        leaf = fn.byid(els[-1]) if els else None
-        whole = fn.byid(b["cond"])
-        if leaf is None or (whole is not None and not any(y is leaf for y in ir.walk(whole))):
-            leaf = whole
-        if leaf is None:
-            continue
+        mods = modifications(fn, d)
+        if all(m["k"] == "BinaryOperator" and m.get("op") == "=" and ref_of(kids(m)[0]) == d and g.pos(m) is not None for m in mods):
+            flags.add(d)
+            for m in mods:
+                assigns[m["id"]] = (d, kids(m)[1])
+    # a never-changed local stands for its initialiser only if the initialiser means the same wherever the local is used
+    inits = {d: e for d, e in inits.items() if d not in flags and not any(y["k"] == "DeclRefExpr" and y["ref"]["id"] in flags for y in ir.walk(e))}
+
+    def value(e, state):
+        env = {sizep: 0}
+        env.update(state)
         try:
-            v = skel.Skel(fn, {sizep: 0}, unknown).ev(leaf)
+            v = skel.Skel(fn, env, lambda x, sk: None if ref_of(x) in flags else unknown(x, sk)).ev(e)
         except (dtable.Undecidable, skel.Diverges, skel.Return):
             v = None
-        if isinstance(v, (bool, int)):
-            blocked.append((bid, succ[1] if v else succ[0]))
-        elif on_size(leaf):
-            walls += [(bid, succ[0]), (bid, succ[1])]
-    start = (g.entry, -1)
+        return v if isinstance(v, (bool, int)) else None
+
+    goals = {}
     for s in splits:
         goal = g.pos_deep(s)
         if goal is None:
             raise undecided(fn, s, "splitting call has no place in the CFG")
-        if g.path_between_avoiding(start, goal, [], blocked_edges=blocked + walls) is not None:
-            ck.violation("ZERO-LENGTH", fn.qname, tag, "a merge of zero elements from non-empty inputs reaches the splitter, whose ranks are then -1", fn.loc)
-            return
-    for s in splits:
-        if g.path_between_avoiding(start, g.pos_deep(s), [], blocked_edges=blocked) is not None:
-            raise undecided(fn, s, "whether size == 0 reaches the splitter depends on a test of size that is not understood; splitter")
+        goals.setdefault(goal[0], s)
+
+    def search(walls_open):
+        """a splitting call that is reached from the entry with size == 0, or None"""
+        work, seen = [(g.entry, frozenset())], set()
+        while work:
+            bid, st = work.pop()
+            if (bid, st) in seen:
+                continue
+            seen.add((bid, st))
+            if len(seen) > 20000:
+                raise dtable.Undecidable("%s: too many states while following the flags that depend on size" % fn.loc)
+            if bid in goals:
+                return goals[bid]
+            b = g.blocks[bid]
+            state = dict(st)
+            for el in b.get("el", []):
+                n = fn.byid(el) if isinstance(el, int) else None
+                if n is None:
+                    continue
+                if n["k"] == "DeclStmt":
+                    sets = [(v["did"], kids(v)[0] if kids(v) else None) for v in kids(n) if v is not None and v["k"] == "VarDecl" and v.get("did") in flags]
+                elif el in assigns:
+                    sets = [assigns[el]]
+                else:
+                    continue
+                for d, src in sets:
+                    val = value(src, state) if src is not None else None
+                    if val is None:
+                        state.pop(d, None)
+                    else:
+                        state[d] = val
+            succ = b.get("succ", [])
+            nxt = g.succ[bid]
+            if len(succ) == 2 and None not in succ and b.get("cond") is not None and b.get("termk") != "SwitchStmt" and not b.get("noreturn"):
+                els = [x for x in b.get("el", []) if isinstance(x, int)]
+                leaf = fn.byid(els[-1]) if els else None
+                whole = fn.byid(b["cond"])
+                if leaf is None or (whole is not None and not any(y is leaf for y in ir.walk(whole))):
+                    leaf = whole
+                if leaf is not None:
+                    v = value(leaf, state)
+                    if v is not None:
+                        nxt = [succ[0] if v else succ[1]]
+                    elif on_size(leaf) and not walls_open:
+                        nxt = []         # a test of size that cannot be evaluated: a wall
+            st2 = frozenset(state.items())
+            for x in nxt:
+                work.append((x, st2))
+        return None
+    if search(False) is not None:
+        ck.violation("ZERO-LENGTH", fn.qname, tag, "a merge of zero elements from non-empty inputs reaches the splitter, whose ranks are then -1", fn.loc)
+        return
+    s = search(True)
+    if s is not None:
+        raise undecided(fn, s, "whether size == 0 reaches the splitter depends on a test of size that is not understood; splitter")
     ck.ok("ZERO-LENGTH", tag, "size == 0 returns before any split rank is computed")
 
 
@@ -965,6 +1197,22 @@ def check_base(ck, tu, fn):
 CMP = ("==", "!=", "<", ">", "<=", ">=")
 
 
+def distance_as_difference(e):
+    """copy of e with std::distance(a, b) written as (b - a): for the iterators both spellings compile for (random access)
+    the library defines the first as the second"""
+    if e is None:
+        return None
+    if "callee" in e and e["callee"].get("qname") == "std::distance" and not e.get("member_call") and len(kids(e)) == 2 and \
+            all(a is not None and a["k"] != "DefaultArg" for a in kids(e)):
+        a, b = (distance_as_difference(match.strip_conv(x)) for x in kids(e))
+        return {"k": "BinaryOperator", "op": "-", "id": -12, "ty": e.get("ty"), "l": e.get("l"), "ch": [b, a]}
+    if "ch" not in e:
+        return e
+    out = dict(e)
+    out["ch"] = [distance_as_difference(c) for c in e["ch"]]
+    return out
+
+
 def front_decision(fn):
     """the decision of a front end as leaves of a decision table over canonical atoms (comparisons with the operands
     printed position-independently: parameters by position, locals by their initialisers; global flags by name)"""
@@ -973,7 +1221,7 @@ def front_decision(fn):
     def canon(e, run):
         mp = {d: v for d, v in run.env.items() if isinstance(v, dict)}
         with dtable.canonical_names(names):
-            return dtable.describe(dtable._subst(e, mp) if mp else e)
+            return dtable.describe(distance_as_difference(dtable._subst(e, mp) if mp else e))
 
     def atomize(n, run):
         s = strip_casts(n)
